@@ -92,8 +92,7 @@ Mid(t, pre, s) == SubSeq(t, Len(pre) + 1, Len(t) - Len(s))
 
 MarkerSplitOK(m, p, pre, post, ws, exotic) ==
     \E s \in PostCands(post) :
-        /\ TRUE
-        /\ /\ Len(pre) + Len(s) <= Len(p) /\ Len(pre) + Len(s) <= Len(m)
+           /\ Len(pre) + Len(s) <= Len(p) /\ Len(pre) + Len(s) <= Len(m)
            /\ IsPrefix(pre, p) /\ IsSuffix(s, p) /\ IsPrefix(pre, m) /\ IsSuffix(s, m)
            /\ IF exotic THEN LinePrefixExoticOK(Mid(m, pre, s), Mid(p, pre, s), ws)
                         ELSE LinePrefixOK(Mid(m, pre, s), Mid(p, pre, s), ws)
